@@ -60,6 +60,8 @@ func (r *Run) knownFacts(st *State, t Term, T types.Type) {
 	case *types.Interface:
 		r.assume(st, app("Bool", "wf_iface", t))
 		r.assume(st, app("Bool", "<=", app("Int", "if_val", t), r.heapGet(st, r.eng.heapKeyAlloc())))
+	case *types.Struct:
+		r.assume(st, r.eng.u.okTerm(T, t, r.heapGet(st, r.eng.heapKeyAlloc())))
 	}
 }
 
